@@ -1,5 +1,6 @@
 SPECIFICATION Spec
 CONSTANTS
+  Isas = {"x64"}
   MaxBlocks = 2
   Templates = {"o23", "jmp", "jcc", "ret", "ijmp"}
   Layouts = {"one", "split1", "tail", "head"}
